@@ -3,8 +3,8 @@
 Model:    lean/SaVerif/Model/Like.lean  (transcription of operators._escaped_like_impl,
           of the compiler's '%' || ? || '%' renderings, and of SQLite's patternCompare;
           likeStd = SQL-standard matcher assumed for PostgreSQL / MySQL)
-Gen:      lean/SaVerif/Gen/LikeDefaults.lean (default escape, the ("%", "_") tuple and the
-          replace chain, read by ast from sql/operators.py on every run)
+Gen:      lean/SaVerif/Gen/LikeDefaults.lean (default escape and the ("%", "_", escape) tuple,
+          read by ast from sql/operators.py on every run)
 Theorems: lean/SaVerif/Props/C08.lean
 
 What runs on the real code
@@ -27,8 +27,8 @@ PID = "C08"
 LEVEL = "proof"
 LEAN = ["SaVerif.Props.C08"]
 META = {
-    "text": "Lean theorems for every operand, every text and every ordinary escape character: the pattern rendered for (i)contains/(i)startswith/(i)endswith and their negations with autoescape matches under SQLite's patternCompare (transcribed, both case_sensitive_like settings) and under the SQL-standard matcher exactly when the Python substring/prefix/suffix test holds; autoescape_default_correct has no side condition. The three excluded shapes (escape '_' with '%' in the operand, escape '%', letter escapes under lower()-rendered i-variants) each have a proved counterexample that replays on the real code as a known finding. The model is tied to the code by a translator for the constants of _escaped_like_impl, by an exact differential on the escaped bind values, and by executing all twelve operators on SQLite against both the model and the direct Python oracle; the SQLite matcher model itself is validated against the real library on every run.",
-    "note": "Theorems ending in _partial carry the forced hypotheses (escape not in {'%','_'}, Caseless escape for lower()-rendered i-variants). Modelled-not-verified: PostgreSQL/MySQL LIKE semantics (likeStd; rendering is real, compiled in-process, semantics assumed; MySQL's implicit backslash escape without an ESCAPE clause is not modelled), U+0000 in patterns, SQLITE_MAX_LIKE_PATTERN_LENGTH, multi-character escape strings (SQLite raises; checked in the malformed stream), non-ASCII case folding (SQLite lower() is ASCII-only, as the property states).",
+    "text": "Lean theorems for every operand, every text and every ordinary escape character: the pattern rendered for (i)contains/(i)startswith/(i)endswith and their negations with autoescape matches under SQLite's patternCompare (transcribed, both case_sensitive_like settings) and under the SQL-standard matcher exactly when the Python substring/prefix/suffix test holds; autoescape_default_correct has no side condition. The two excluded shapes (escape '%', letter escapes under lower()-rendered i-variants) each have a proved counterexample that replays on the real code as a known finding. The model is tied to the code by a translator for the constants of _escaped_like_impl, by an exact differential on the escaped bind values, and by executing all twelve operators on SQLite against both the model and the direct Python oracle; the SQLite matcher model itself is validated against the real library on every run.",
+    "note": "Theorems ending in _partial carry the forced hypotheses (escape != '%', Caseless escape for lower()-rendered i-variants). Modelled-not-verified: PostgreSQL/MySQL LIKE semantics (likeStd; rendering is real, compiled in-process, semantics assumed; MySQL's implicit backslash escape without an ESCAPE clause is not modelled), U+0000 in patterns, SQLITE_MAX_LIKE_PATTERN_LENGTH, multi-character escape strings (SQLite raises; checked in the malformed stream), non-ASCII case folding (SQLite lower() is ASCII-only, as the property states).",
     "technique": "Lean 4 proof by induction on the operand over a transcription of SQLite patternCompare + translator for the escape constants + differential execution on SQLite",
     "design_ref": "DESIGN.md §3 C08",
 }
@@ -41,7 +41,6 @@ ESCAPES = [None, "/", "\\", "^", "'", "!", "#", "é", "%", "_", "a", "A", "Z", "
 
 # one fixed witness per known-finding shape (= the Lean `_counterexample` theorems), run first
 KNOWN_CASES = [
-    {"kind": "contains", "icase": False, "neg": False, "path": 0, "mode": "auto", "escape": "_", "autoescape": True, "other": "%", "q": "%", "rows": ["%", "_x", "a%b", "ab"]},
     {"kind": "contains", "icase": False, "neg": False, "path": 0, "mode": "auto", "escape": "%", "autoescape": True, "other": "a", "q": "a", "rows": ["a", "xay", "b"]},
     {"kind": "contains", "icase": True, "neg": False, "path": 0, "mode": "auto", "escape": "a", "autoescape": True, "other": "Ab", "q": "Ab", "rows": ["b", "ab", "xABy"]},
     {"kind": "contains", "icase": True, "neg": False, "path": 0, "mode": "auto", "escape": "A", "autoescape": True, "other": "xAy", "q": "xAy", "rows": ["xay", "xAy", "xy"]},
@@ -125,8 +124,6 @@ def classify(case):
         return None
     if e == "%":
         return "escape-is-percent"
-    if case["autoescape"] and e == "_" and "%" in case["other"]:
-        return "autoescape-escape-underscore-operand-has-percent"
     if case["icase"] and e.isascii() and e.isalpha() and case.get("backend", "sqlite") != "postgresql":
         return "icase-lower-rendering-letter-escape"
     return None
@@ -134,57 +131,51 @@ def classify(case):
 
 # ------------------------------------------------------------------ translator
 def _read_constants():
+    """default escape and the members of the tuple in
+    `escape + char if char in ("%", "_", escape) else char` (by ast)"""
     from harness import vlib
 
     fn = os.path.join(vlib.REPO, "lib", "sqlalchemy", "sql", "operators.py")
     tree = ast.parse(open(fn).read())
     f = [n for n in tree.body if isinstance(n, ast.FunctionDef) and n.name == "_escaped_like_impl"][0]
-    default = nodouble = None
-    chain = []
+    default = members = None
     for node in ast.walk(f):
         if isinstance(node, ast.If) and isinstance(node.test, ast.Compare):
             t = node.test
-            if isinstance(t.left, ast.Name) and t.left.id == "escape" and len(t.ops) == 1:
-                if isinstance(t.ops[0], ast.Is) and isinstance(t.comparators[0], ast.Constant) and t.comparators[0].value is None:
-                    a = node.body[0]
-                    if isinstance(a, ast.Assign) and isinstance(a.value, ast.Constant) and isinstance(a.value.value, str) and len(a.value.value) == 1:
-                        default = a.value.value
-                elif isinstance(t.ops[0], ast.NotIn) and isinstance(t.comparators[0], (ast.Tuple, ast.List, ast.Set)):
-                    vals = [e.value for e in t.comparators[0].elts if isinstance(e, ast.Constant)]
-                    a = node.body[0]
-                    ok = (
-                        len(vals) == len(t.comparators[0].elts)
-                        and all(isinstance(v, str) and len(v) == 1 for v in vals)
-                        and len(node.body) == 1
-                        and ast.unparse(a).replace(" ", "") == "other=other.replace(escape,escape+escape)"
-                    )
-                    if ok:
-                        nodouble = vals
-        if isinstance(node, ast.Assign) and ast.unparse(node.targets[0]) == "other" and isinstance(node.value, ast.Call):
-            calls, v = [], node.value
-            while isinstance(v, ast.Call) and isinstance(v.func, ast.Attribute) and v.func.attr == "replace":
-                calls.append(v)
-                v = v.func.value
-            if isinstance(v, ast.Name) and v.id == "other" and calls:
-                cs = []
-                for c in reversed(calls):
-                    if len(c.args) == 2 and isinstance(c.args[0], ast.Constant) and isinstance(c.args[0].value, str) and len(c.args[0].value) == 1:
-                        x = c.args[0].value
-                        if ast.unparse(c.args[1]).replace(" ", "") == "escape+%r" % x:
-                            cs.append(x)
-                            continue
-                    cs = None
-                    break
-                if cs and len(cs) == len(calls) and len(cs) > len(chain):
-                    chain = cs
-    if default is None or nodouble is None or not chain:
-        raise ValueError("shape of _escaped_like_impl not recognised: default=%r nodouble=%r chain=%r" % (default, nodouble, chain))
-    return default, nodouble, chain
+            if (
+                isinstance(t.left, ast.Name)
+                and t.left.id == "escape"
+                and len(t.ops) == 1
+                and isinstance(t.ops[0], ast.Is)
+                and isinstance(t.comparators[0], ast.Constant)
+                and t.comparators[0].value is None
+            ):
+                a = node.body[0]
+                if isinstance(a, ast.Assign) and isinstance(a.value, ast.Constant) and isinstance(a.value.value, str) and len(a.value.value) == 1:
+                    default = a.value.value
+        if isinstance(node, ast.IfExp) and isinstance(node.test, ast.Compare) and len(node.test.ops) == 1 and isinstance(node.test.ops[0], ast.In):
+            var = node.test.left
+            tup = node.test.comparators[0]
+            if isinstance(var, ast.Name) and isinstance(tup, (ast.Tuple, ast.List, ast.Set)):
+                ok = ast.unparse(node.body).replace(" ", "") == "escape+" + var.id and ast.unparse(node.orelse) == var.id
+                lits, has_escape = [], False
+                for e in tup.elts:
+                    if isinstance(e, ast.Constant) and isinstance(e.value, str) and len(e.value) == 1:
+                        lits.append(e.value)
+                    elif isinstance(e, ast.Name) and e.id == "escape":
+                        has_escape = True
+                    else:
+                        ok = False
+                if ok:
+                    members = (lits, has_escape)
+    if default is None or members is None:
+        raise ValueError("shape of _escaped_like_impl not recognised: default=%r members=%r" % (default, members))
+    return default, sorted(set(members[0])), members[1]  # `in` on a tuple: order and repeats are irrelevant
 
 
 def gen(ctx):
     try:
-        default, nodouble, chain = _read_constants()
+        default, lits, has_escape = _read_constants()
     except Exception as e:  # keep the committed table; the bind-value correspondence still ties model to code
         ctx.assumptions.append("translator could not read _escaped_like_impl (%s); committed Gen/LikeDefaults.lean kept" % e)
         return
@@ -198,11 +189,11 @@ def gen(ctx):
         "namespace SaVerif.Gen.LikeDefaults\n\n"
         '/-- `if escape is None: escape = "/"` -/\n'
         "def defaultEscape : Char := Char.ofNat %d\n\n"
-        '/-- `if escape not in ("%%", "_"):` — escape characters that are not doubled -/\n'
-        "def noDouble : List Char := %s\n\n"
-        "/-- the `.replace(X, escape + X)` chain applied afterwards, in source order -/\n"
+        '/-- literal members of the tuple in `char in ("%%", "_", escape)` -/\n'
         "def escapedChars : List Char := %s\n\n"
-        "end SaVerif.Gen.LikeDefaults\n" % (ord(default), cl(nodouble), cl(chain)),
+        "/-- the tuple also names `escape` itself -/\n"
+        "def escapesEscape : Bool := %s\n\n"
+        "end SaVerif.Gen.LikeDefaults\n" % (ord(default), cl(lits), "true" if has_escape else "false"),
     )
 
 
